@@ -319,6 +319,7 @@ func TestVerifC01(t *testing.T) {
 					fi, err := os.Lstat(p)
 					switch {
 					case err != nil:
+						row = append(row, fmt.Sprintf("(%s, Absent)", gStr(nm)))
 					case fi.IsDir():
 						row = append(row, fmt.Sprintf("(%s, Unreadable)", gStr(nm)))
 					default:
@@ -362,7 +363,7 @@ func TestVerifC01(t *testing.T) {
 					kind = "HEAD"
 				case x < 83:
 					kind = "PUT"
-				case x < 96:
+				case x < 98:
 					kind = "PUTWRONG"
 				default:
 					kind = "PUTLONG"
@@ -504,6 +505,9 @@ func c01PickPattern(r *vRand, b *c01Block, two bool) string {
 	}
 	for {
 		x := r.Intn(100)
+		if b.coll && r.Chance(1, 4) {
+			x = 99
+		}
 		var pat string
 		switch {
 		case x < 18:
@@ -602,7 +606,7 @@ func c01Exhaustive(t *testing.T, cs *vCases, limit int, only int) {
 					p := filepath.Join(dir, hash[:3], hash)
 					fi, err := os.Lstat(p)
 					if err != nil {
-						out = append(out, "[]")
+						out = append(out, fmt.Sprintf("[(%s, Absent)]", gStr(hash)))
 					} else {
 						out = append(out, fmt.Sprintf("[(%s, File %s)]", gStr(hash), tab.file(p, fi).g()))
 					}
